@@ -1,6 +1,6 @@
 (* C19: property theorems (statements in full; proofs in Proofs*.v). *)
 From Coq Require Import List NArith ZArith Bool.
-From C19 Require Import Gen Model Spec ProofsPtr ProofsPatch ProofsPatchExact ProofsParse ProofsNum ProofsEq RTNum ProofsDouble RTStr RTDefs RTMain RTFinal RTDouble ProofsHandler ProofsHandlerObj ProofsPatchDoc ProofsKinds.
+From C19 Require Import Gen Model Spec ProofsPtr ProofsPatch ProofsPatchExact ProofsParse ProofsNum ProofsEq RTNum ProofsDouble RTStr RTDefs RTMain RTFinal RTDouble ProofsHandler ProofsHandlerObj ProofsLexEvents ProofsPatchDoc ProofsKinds.
 Import ListNotations.
 Local Open Scope N_scope.
 
@@ -113,6 +113,42 @@ Example c19_handler_example :
   let v := JObj [([97], JArr [JUInt 1; JObj []]); ([98], JObj [([120], JNull)])] in
   sorted_tree v = true /\ h_tree (h_run (h_step h_init EBegin) (events_of v)) = Some v.
 Proof. vm_compute. split; reflexivity. Qed.
+
+(* The lexer model emitting the handler calls itself (ProofsLexEvents.lex_events: the same
+   recursive descent as parse_value_g, returning the JsonParserInterface calls between Begin() and
+   End() instead of a tree).  For EVERY text: if the text parses, the calls the lexer makes are
+   exactly events_of the document-order tree (members in the order and multiplicity of the text). *)
+Theorem c19_lexer_events :
+  forall (text : list N) (v : jv) (rest : list N),
+    parse_text_g put_raw text = POk v rest -> lex_events text = POk (events_of v) [].
+Proof. exact lex_events_raw. Qed.
+Print Assumptions c19_lexer_events.
+
+(* Hence c19_handler_agrees is about the event sequence the lexer really produces: for a document
+   whose members are already in std::map order without duplicates (its document-order tree is the tree
+   parse_text gives), the lexer's calls are the events of the parsed value, and the handler machine
+   fed with them builds that value. *)
+Theorem c19_lexer_events_sorted :
+  forall (text : list N) (v : jv) (r1 r2 : list N),
+    parse_text text = POk v r1 -> parse_text_g put_raw text = POk v r2 ->
+    lex_events text = POk (events_of v) [] /\
+    (sorted_tree v = true -> h_tree (h_run (h_step h_init EBegin) (events_of v)) = Some v).
+Proof. exact lex_events_sorted. Qed.
+Print Assumptions c19_lexer_events_sorted.
+
+(* Every text JsonWriter produces for a tree inside the round-trip guard is such a document. *)
+Theorem c19_lexer_events_written :
+  forall v : jv, wfb (N.to_nat MAX_DEPTH) v = true ->
+    parse_text (write cx_parsed 0 v) = POk (canon v) [] /\
+    lex_events (write cx_parsed 0 v) = POk (events_of (canon v)) [].
+Proof. exact lex_events_written. Qed.
+Print Assumptions c19_lexer_events_written.
+Example c19_lexer_events_example :
+  (* {"a": [1, {}], "b": null} *)
+  lex_events [123;34;97;34;58;32;91;49;44;32;123;125;93;44;32;34;98;34;58;32;110;117;108;108;125] =
+  POk [EOpenObj; EKey [97]; EOpenArr; EValue (JUInt 1); EOpenObj; ECloseObj; ECloseArr;
+       EKey [98]; EValue JNull; ECloseObj] [].
+Proof. vm_compute. reflexivity. Qed.
 
 (* Doubles in equality.  The MODEL compares two JsonDouble leaves by their stored representation
    and never equates a double with a non-double (the C++ also returns false for double vs integer,
